@@ -274,3 +274,15 @@ check("C17", "internal/zzverif/c17",
       floors={"any": {"round_trips": 8000, "services": 3000, "storage_entries": 3000, "preimages_attributed": 1000, "lookups_attributed": 500, "lookups_without_preimage": 500, "lookups_other_length": 200,
                       "raw_entries_after_import": 3000, "full_params": 20, "node_round_trips": 300}},
       assumptions=[STANDIN_VRF])
+
+check("C31", "internal/zzverif/c31",
+      rule="lookup stratum (exhaustive): every availability record of length 0..4 over the slots {0,5,10,15} (341 records, unordered ones included) x t in 0..20 x 5 account shapes (preimage + record; record without preimage; record under another length; preimage without record; other hash queried) through service_account.HistoricalLookup, and every third t also through the refine host call historical_lookup (own service via 2^64-1 or by id): the preimage is returned iff it is stored and I(record, t); records of length 4 are observed, not judged; "
+           "admission stratum: 1..4 services, 1..6 requests each in one of 7 conditions (solicited in the dictionary, solicited only as the raw key-value [0], unsolicited, already provided, provided with the record still unparsed, solicited under another length, unknown service), blobs from a family of short strings that are prefixes of each other plus random ones, the extrinsic sorted by (requester, blob) and then left alone / two neighbours swapped / an entry duplicated / shuffled: "
+           "ValidatePreimageExtrinsics must accept iff strictly ordered and every entry solicited and not provided, and must not modify its inputs; accepted extrinsics are integrated with ProcessPreimageExtrinsics on the singleton (in every 4th case one request is forgotten or provided between validation and integration and must be skipped): posterior accounts = prior + preimage + record [tau'], the unparsed request leaves the raw pool, nothing else changes, no duplicate raw key. distinct_nontrivial = distinct records + distinct (conditions, order, size) of extrinsics",
+      technique="reference-model monitor: exhaustive table of the availability predicate I(l,t) at the library and host-call boundary + admission/integration model over generated service states and extrinsics driven through the blockchain singleton",
+      level_text="Exhaustive over availability records on a slot grid; generated service states and extrinsics for admission and integration, compared with a model written from GP 9.5-9.7 and 12.38-12.43. Held = no divergence on what was explored.",
+      note="An empty preimage is not generated in the lookup stratum (an empty result and 'nothing' cannot be told apart through a byte slice). Records of length 4 are outside the record's domain (at most three slots) and only observed.",
+      shards=(8, 16), env={"JAM_FUZZ": "1"},
+      floors={"any": {"lookups_returning_the_preimage": 800, "lookups_returning_nothing": 20000, "host_call_lookups": 5000, "extrinsics_accepted": 3000, "rejected_for_order": 1000, "rejected_for_need": 3000, "integrations": 3000,
+                      "integrations_with_a_vanished_request": 500, "preimages_solicited_only_in_raw_key_values": 1000}},
+      exhaustive="all availability records of length 0..3 over {0,5,10,15} x t in 0..20 x 5 account shapes", assumptions=[STANDIN_VRF])
